@@ -171,11 +171,27 @@ fn exec_step(gi: usize, t: usize, s: &Value, tc: &mut ThreadCtx) {
                                     panic!("injected panic while a span handle is alive");
                                 }));
                             });
+                        } else if s["cb_panic"].as_bool().unwrap_or(false) {
+                            // fault: the outermost layer's on_close panics (caught here); if this drop closes the span
+                            // it must be removed, and its parent released, all the same
+                            crate::reclayer::PANIC_NEXT_ON_CLOSE.with(|c| c.set(x.span.id().map_or(0, |i| i.into_u64())));
+                            let _ = std::panic::catch_unwind(std::panic::AssertUnwindSafe(|| with_under(&under, || drop(x.span))));
+                            crate::reclayer::PANIC_NEXT_ON_CLOSE.with(|c| c.set(0));
                         } else {
                             with_under(&under, || drop(x.span));
                         }
                     }
                     None => h.applied = false,
+                }
+            }
+            "arm_work" => {
+                // reentrancy: when the span in `slot` closes, the outermost layer runs a short-lived span of its own
+                match with_slot(slot, |sp, uid| (sp.id().map(|i| i.into_u64()).unwrap_or(0), uid)) {
+                    Some((id, uid)) if id != 0 => {
+                        h.uid = uid;
+                        crate::reclayer::WORK_ON_CLOSE.lock().unwrap().push(id);
+                    }
+                    _ => h.applied = false,
                 }
             }
             "arm" => {
@@ -414,7 +430,7 @@ impl Engine for RegistryEngine {
     }
     fn rule(&self, prop: &str) -> String {
         match prop {
-            "C05" => "history (op granularity) or schedule (sync granularity; preemption at every registry ref-count operation via hook H2, at every tracing-core atomic and lock) over a span forest: create (contextual/explicit/root parent), clone, drop, raw enter/exit in any order incl. handle dropped while entered, Span::current captures, slot-reuse churn; home default installed as scoped or as global default; non-trivial = at least one span closed by an exit or by a cascade from a child, and at least 3 spans; distinct = distinct (plan, schedule digest)".into(),
+            "C05" => "history (op granularity) or schedule (sync granularity; preemption at every registry ref-count operation via hook H2, at every tracing-core atomic and lock) over a span forest: create (contextual/explicit/root parent), clone, drop, raw enter/exit in any order incl. handle dropped while entered, Span::current captures, slot-reuse churn; reentrancy (total-order runs): the outermost layer releases span handles, or runs a short-lived span of its own, inside another span's on_close; faults: handle dropped / span exited by unwinding, the outermost layer panics in on_close (caught); per layer nothing may be heard about a span after its close; a quarter of the scheduled runs are duels (one span: a thread enters and leaves it while another drops the last handle); home default installed as scoped or as global default; non-trivial = at least one span closed by an exit or by a cascade from a child, and at least 3 spans; distinct = distinct (plan, schedule digest)".into(),
             _ => "history (total order of operations on 1-3 threads) of enter/exit incl. out-of-order exits and one span entered on several threads, span creation with contextual/explicit/root parents, events with contextual/explicit/root parents, Span::current, SpanTrace capture/walk while ancestors' handles are dropped; non-trivial = at least one contextual creation or event inside a nesting of depth >= 2 and at least one out-of-order exit or cross-thread enter; distinct = distinct plan digest".into(),
         }
     }
@@ -473,7 +489,31 @@ impl Engine for RegistryEngine {
                 }
             }
         }
-        let nsteps = if sync { rng.range(3, 14) } else { rng.range(5, if thorough { 50 } else { 32 }) };
+        let mut nsteps = if sync { rng.range(3, 14) } else { rng.range(5, if thorough { 50 } else { 32 }) };
+        if sync && prop == "C05" && !probe_f2 && rng.chance(1, 4) {
+            // duel shape: one span; thread 1 enters and leaves it while another thread drops what may be its last
+            // handle - few operations, so that a single preemption decides the order
+            pre.clear();
+            steps.clear();
+            has = vec![false; NSLOTS];
+            pre.push(json!({"t": 0, "op": "new", "slot": 0, "site": rng.below(20), "parent": -2}));
+            pre.push(json!({"t": 0, "op": "clone", "slot": 0, "b": 1}));
+            pre.push(json!({"t": 0, "op": "clone", "slot": 0, "b": 2}));
+            pre.push(json!({"t": 0, "op": "drop", "slot": 0}));
+            ident[1] = next_ident;
+            ident[2] = next_ident;
+            next_ident += 1;
+            has[1] = true;
+            let other = 2 % nthreads;
+            steps.push(json!({"t": 1, "op": "enter", "slot": 1}));
+            if rng.chance(1, 2) {
+                steps.push(json!({"t": 1, "op": "drop", "slot": 1}));
+                has[1] = false;
+            }
+            steps.push(json!({"t": 1, "op": "exit", "idx": 0}));
+            steps.push(json!({"t": other, "op": "drop", "slot": 2}));
+            nsteps = rng.range(0, 3);
+        }
         for _ in 0..nsteps {
             let t = rng.below(nthreads);
             let tt = t as usize;
@@ -514,6 +554,8 @@ impl Engine for RegistryEngine {
                         has[slot] = false;
                         if rng.chance(1, 6) {
                             json!({"t": t, "op": "drop", "slot": slot, "unwind": true})
+                        } else if !sync && rng.chance(1, 8) {
+                            json!({"t": t, "op": "drop", "slot": slot, "cb_panic": true})
                         } else {
                             json!({"t": t, "op": "drop", "slot": slot})
                         }
@@ -570,6 +612,8 @@ impl Engine for RegistryEngine {
                                 2 => json!({"t": t, "op": "trace_drop", "tr": *rng.pick(&own)}),
                                 _ => json!({"t": t, "op": "event", "site": rng.below(20), "parent": *rng.pick(&[-1i64, -1, -2, slot as i64])}),
                             }
+                        } else if !sync && !probe_f2 && rng.chance(1, 4) {
+                            json!({"t": t, "op": "arm_work", "slot": slot})
                         } else if !sync && mine.len() >= 2 && rng.chance(1, 2) {
                             let trig = *rng.pick(&mine);
                             if trig != slot && ident[trig] != ident[slot] {
@@ -749,6 +793,35 @@ fn oracle(prop: &str, sync: bool, hist: &[H], log: &[LRec]) {
             violation("layers-disagree", format!("the two recording layers saw different lifecycle notifications ({} vs {}){sig}", k0.len(), k1.len()));
             return;
         }
+    }
+    // per layer: once a span has been reported closed nothing more is said about it (its id may be issued again later,
+    // by on_new_span), and while it is being entered or left its data is there
+    for layer in 0..2usize {
+        let mut closed: std::collections::HashSet<u64> = Default::default();
+        let mut recs: Vec<&LRec> = log.iter().filter(|r| r.stack == 0 && r.layer == layer).collect();
+        recs.sort_by_key(|r| r.stamp);
+        for r in recs {
+            match r.kind {
+                "on_new_span" => {
+                    closed.remove(&r.id);
+                }
+                "on_close" => {
+                    closed.insert(r.id);
+                }
+                "on_enter" | "on_exit" | "on_record" => {
+                    if closed.contains(&r.id) || ((r.kind == "on_enter" || r.kind == "on_exit") && !r.flag) {
+                        let sig = if any_foreign_before(u64::MAX) { " [F2-signature]" } else { "" };
+                        violation("callback-after-close", format!("layer {layer} received {} for span id {} on t{} after the span had been reported closed to it (span data present: {}){sig}", r.kind, r.id, r.thread, r.flag));
+                        return;
+                    }
+                }
+                _ => {}
+            }
+        }
+    }
+    if let Some(r) = log.iter().find(|r| r.kind == "work_leak") {
+        violation("reentrant-span-not-closed", format!("inside on_close of span id {} the layer created, entered, left and dropped a span (id {}); it is still stored afterwards", r.id2, r.id));
+        return;
     }
     // spans by uid from layer 0's on_new_span
     let mut spans: BTreeMap<u64, MSpan> = BTreeMap::new();
